@@ -14,10 +14,22 @@ def check_own(prop: str, res: Result, repo: Repo):
     """stores to Candle.open/high/low/close/volume/timestamp and to the reading dicts occur only in their owners"""
     rule = "R-OWN"
     ct = repo.cls("hexital.core.candlestick_type", "CandlestickType")
-    for fi in repo.all_functions():
+    allf = repo.all_functions()
+    residual = getattr(repo, "residual", {}) or {}
+
+    def only_called_from(fi, pred, depth=0) -> bool:
+        """a helper outside the pinned decomposition (it survived inlining) that is referenced only by functions satisfying `pred`
+        (or by other such helpers) acts on their behalf"""
+        if fi.name not in residual or depth > 4:
+            return False
+        users = [g for g in allf if g is not fi and any((isinstance(n, ast.Name) and n.id == fi.name) or (isinstance(n, ast.Attribute) and n.attr == fi.name) for n in ast.walk(g.node))]
+        return bool(users) and all(pred(g) or only_called_from(g, pred, depth + 1) for g in users)
+
+    collapse_p = lambda g: g.cls is not None and g.cls.name == "CandleManager" and g.name == "collapse_candles"
+    for fi in allf:
         in_candle = fi.cls is not None and fi.cls.name == "Candle" and fi.module.name == "hexital.core.candle"
         is_convert = fi.cls is not None and fi.name == "convert_candle" and repo.is_subclass(fi.cls, ct)
-        is_collapse = fi.cls is not None and fi.cls.name == "CandleManager" and fi.name == "collapse_candles"
+        is_collapse = collapse_p(fi) or only_called_from(fi, collapse_p)
         for st, t in attr_stores(fi.node):
             if t.attr not in OHLCV:
                 continue
